@@ -261,6 +261,19 @@ pub fn decode_stateless<T: Buf>(buf: &mut T, max_size: u64) -> Result<Decoded, D
     })
 }
 
+#[cfg(feature = "verif-hooks")]
+impl Decoder {
+    /// A decoder over a table configured by the harness.
+    pub fn verif_with_table(table: DynamicTable) -> Decoder {
+        Decoder { table }
+    }
+
+    /// Canonical rendering of the complete table state.
+    pub fn verif_digest(&self) -> String {
+        self.table.verif_digest()
+    }
+}
+
 #[cfg(test)]
 impl From<DynamicTable> for Decoder {
     fn from(table: DynamicTable) -> Self {
